@@ -139,6 +139,16 @@ def generate(repo, emit, src, func_body):
         b = body(it, fn)
         ok = b is not None and norm(b) == want
         emit('iter_shape_' + fn, ('Definition iter_shape_%s : bool := true.' % fn) if ok else None)
+    TREE_SHAPES = {
+        'Tree_Iter_Init': '{ struct Tree* m = self; if (m->nitems is 0) { return Terminal; } var node = m->root; while (*Tree_Left(m, node) isnt NULL) { node = *Tree_Left(m, node); } return Tree_Key(m, node); }',
+        'Tree_Iter_Next': '{ struct Tree* m = self; var node = (char*)curr - sizeof(struct Header) - 3 * sizeof(var); var prnt = Tree_Get_Parent(m, node); if (*Tree_Right(m, node) isnt NULL) { node = *Tree_Right(m, node); while (*Tree_Left(m, node) isnt NULL) { node = *Tree_Left(m, node); } return Tree_Key(m, node); } while (true) { if (prnt is NULL) { return Terminal; } if (node is *Tree_Left(m, prnt)) { return Tree_Key(m, prnt); } if (node is *Tree_Right(m, prnt)) { prnt = Tree_Get_Parent(m, prnt); node = Tree_Get_Parent(m, node); } } return Terminal; }',
+        'Tree_Iter_Last': '{ struct Tree* m = self; if (m->nitems is 0) { return Terminal; } var node = m->root; while (*Tree_Right(m, node) isnt NULL) { node = *Tree_Right(m, node); } return Tree_Key(m, node); }',
+        'Tree_Iter_Prev': '{ struct Tree* m = self; var node = (char*)curr - sizeof(struct Header) - 3 * sizeof(var); var prnt = Tree_Get_Parent(m, node); if (*Tree_Left(m, node) isnt NULL) { node = *Tree_Left(m, node); while (*Tree_Right(m, node) isnt NULL) { node = *Tree_Right(m, node); } return Tree_Key(m, node); } while (true) { if (prnt is NULL) { return Terminal; } if (node is *Tree_Right(m, prnt)) { return Tree_Key(m, prnt); } if (node is *Tree_Left(m, prnt)) { prnt = Tree_Get_Parent(m, prnt); node = Tree_Get_Parent(m, node); } } return Terminal; }',
+    }
+    for fn, want in TREE_SHAPES.items():
+        b = body(tree, fn)
+        ok = b is not None and norm(b) == want
+        emit('iter_shape_' + fn, ('Definition iter_shape_%s : bool := true.' % fn) if ok else None)
 
     # Tree orientation: Tree_Set compares cmp(Tree_Key(m, node), key) and goes LEFT when it is < 0
     b = func_body(tree, r'static\s+void\s+Tree_Set\s*\([^)]*\)\s*\{')
